@@ -40,6 +40,7 @@ type seqSpec struct {
 	Init  int        `json:"init"`  // 0: store absent, 1: store "s" holds {1:10}
 	Calls []callSpec `json:"calls"` //
 	Tag   string     `json:"tag,omitempty"`
+	Fault *faultSpec `json:"fault,omitempty"` // one armed storage failure (writers)
 }
 
 func (s seqSpec) String() string {
@@ -54,12 +55,18 @@ func (s seqSpec) String() string {
 			w = append(w, callNames[c.C])
 		}
 	}
-	return fmt.Sprintf("%s init=%d [%s]", modeNames[s.Mode], s.Init, strings.Join(w, ","))
+	f := ""
+	if s.Fault != nil {
+		f = fmt.Sprintf(" fault(%s)@%d", s.Fault.Kind, s.Fault.At)
+	}
+	return fmt.Sprintf("%s init=%d [%s]%s", modeNames[s.Mode], s.Init, strings.Join(w, ","), f)
 }
 
 type execOut struct {
 	Res   []int  `json:"res"`
 	Panic string `json:"panic,omitempty"`
+	Fired bool   `json:"fired,omitempty"` // the armed failure was injected
+	Phase int    `json:"phase,omitempty"` // ... 0 before phase 2 / in Rollback, 1 in phase 2 before the commit point, 2 after it
 }
 
 func mkCall(kind, pos int) callSpec {
@@ -204,6 +211,22 @@ func randomSeq(r *hx.Rng) seqSpec {
 		}
 		s.Calls = append(s.Calls, c)
 	}
+	if s.Mode == 1 && r.Chance(35) {
+		var pos []int
+		for j, c := range s.Calls {
+			if c.C == cCommit || c.C == cRollback || c.C == cP1 || c.C == cP2 {
+				pos = append(pos, j)
+			}
+		}
+		pos = append(pos, len(s.Calls)) // the closing Rollback
+		at := hx.Pick(r, pos)
+		kinds := []string{"sr", "reg", "tlog"}
+		if at == len(s.Calls) || s.Calls[at].C == cRollback {
+			kinds = kinds[:2]
+		}
+		s.Fault = &faultSpec{At: at, Kind: hx.Pick(r, kinds)}
+		s.Tag = "random+fault"
+	}
 	return s
 }
 
@@ -221,8 +244,87 @@ func sample(plan, pool []seqSpec, n int, r *hx.Rng, tag string) []seqSpec {
 	return plan
 }
 
+// withFaults returns, for every sequence, one copy per (lifecycle call position, fault kind): the
+// positions holding Commit / Rollback / Phase1Commit / Phase2Commit and the closing Rollback the
+// driver appends (index len(Calls)).
+func withFaults(seqs []seqSpec, tag string) []seqSpec {
+	var out []seqSpec
+	for _, s := range seqs {
+		for j := 0; j <= len(s.Calls); j++ {
+			k := cRollback
+			if j < len(s.Calls) {
+				k = s.Calls[j].C
+			}
+			var kinds []string
+			switch k {
+			case cRollback:
+				kinds = []string{"sr", "reg"}
+			case cCommit, cP1, cP2:
+				kinds = []string{"sr", "reg", "tlog"}
+			}
+			for _, kd := range kinds {
+				c := s
+				c.Tag = tag
+				c.Fault = &faultSpec{At: j, Kind: kd}
+				out = append(out, c)
+			}
+		}
+	}
+	return out
+}
+
+// faultBase: writer sequences Begin,NewBtree|OpenBtree + w with |w| in [lo,hi]; OpenBtree only on the
+// seeded store; firstWrite: w starts with Add/Update/Remove
+func faultBase(lo, hi int, firstWrite bool) []seqSpec {
+	var out []seqSpec
+	for _, pre := range []int{cNewBtree, cOpenBtree} {
+		for _, s := range allSeqs(nil, []int{cBegin, pre}, lo, hi, writerOnly, "", 1) {
+			if pre == cOpenBtree && s.Init == 0 {
+				continue
+			}
+			if firstWrite && !(s.Calls[2].C == cAdd || s.Calls[2].C == cUpdate || s.Calls[2].C == cRemove) {
+				continue
+			}
+			out = append(out, s)
+		}
+	}
+	return out
+}
+
+func faultCorpus() []seqSpec {
+	mk := func(init, at int, kind string, ks ...int) seqSpec {
+		s := seqSpec{Mode: 1, Init: init, Tag: "corpus", Fault: &faultSpec{At: at, Kind: kind}}
+		for i, k := range ks {
+			c := mkCall(k, i)
+			if k == cAdd && init == 1 {
+				c.K = 2
+			}
+			s.Calls = append(s.Calls, c)
+		}
+		return s
+	}
+	return []seqSpec{
+		// Rollback whose undo fails (removing the store created by the transaction), then the same object is used again
+		mk(0, 3, "sr", cBegin, cNewBtree, cAdd, cRollback, cFind, cAdd, cCommit, cBegin),
+		mk(0, 2, "sr", cBegin, cNewBtree, cRollback, cNewBtree, cAdd, cCommit),
+		mk(1, 4, "sr", cBegin, cOpenBtree, cAdd, cP1, cRollback, cFind, cCommit),
+		mk(1, 4, "reg", cBegin, cOpenBtree, cUpdate, cP1, cRollback, cUpdate, cCommit),
+		// commit phases meeting a failure, then the same object is used again
+		mk(1, 3, "tlog", cBegin, cOpenBtree, cAdd, cCommit, cFind, cAdd, cCommit, cRollback),
+		mk(1, 3, "sr", cBegin, cOpenBtree, cAdd, cCommit, cFind, cCommit),
+		mk(1, 3, "reg", cBegin, cOpenBtree, cUpdate, cP1, cP2, cUpdate, cCommit),
+		mk(1, 4, "reg", cBegin, cOpenBtree, cUpdate, cP1, cP2, cUpdate, cCommit),
+		mk(1, 4, "tlog", cBegin, cOpenBtree, cRemove, cP1, cP2, cFind, cCommit),
+		mk(0, 3, "reg", cBegin, cNewBtree, cAdd, cCommit, cAdd, cCommit),
+		mk(0, 4, "tlog", cBegin, cNewBtree, cAdd, cP1, cP2, cAdd, cCommit),
+		// known finding: Commit of a writer that opened no store panics when the finalizeCommit log write fails
+		mk(1, 1, "tlog", cBegin, cCommit, cBegin),
+	}
+}
+
 func buildPlan(cfg *hx.RunCfg) []seqSpec {
 	plan := corpus()
+	plan = append(plan, faultCorpus()...)
 	r := hx.NewRng(cfg.Seed)
 	if cfg.Tier == "thorough" {
 		plan = allSeqs(plan, nil, 1, 4, allModes, "all<=4", 0)
@@ -231,6 +333,8 @@ func buildPlan(cfg *hx.RunCfg) []seqSpec {
 		plan = allSeqs(plan, []int{cBegin, cNewBtree}, 3, 4, writerOnly, "writer:Begin,NewBtree+3..4", 1)
 		plan = allSeqs(plan, []int{cBegin, cOpenBtree}, 3, 4, writerOnly, "writer:Begin,OpenBtree+3..4", 1)
 		plan = allSeqs(plan, []int{cBegin, cOpenBtree}, 1, 4, writerOnly, "writer:Begin,OpenBtree+1..4 (ops on the added key)", 2)
+		plan = append(plan, withFaults(faultBase(1, 3, false), "fault:Begin,New|OpenBtree+1..3")...)
+		plan = append(plan, withFaults(faultBase(4, 4, true), "fault:Begin,New|OpenBtree+write+3")...)
 		n := cfg.N
 		if n == 0 {
 			n = 12000
@@ -247,11 +351,13 @@ func buildPlan(cfg *hx.RunCfg) []seqSpec {
 	plan = allSeqs(plan, []int{cBegin, cNewBtree}, 3, 3, writerOnly, "writer:Begin,NewBtree+3", 1)
 	plan = allSeqs(plan, []int{cBegin, cOpenBtree}, 3, 3, writerOnly, "writer:Begin,OpenBtree+3", 1)
 	plan = allSeqs(plan, []int{cBegin, cOpenBtree}, 1, 3, writerOnly, "writer:Begin,OpenBtree+1..3 (ops on the added key)", 2)
+	plan = append(plan, withFaults(faultBase(1, 2, false), "fault:Begin,New|OpenBtree+1..2")...)
 	// the rest of the small scope is sampled in the quick tier (all of it runs in the thorough tier)
 	n := cfg.N
 	if n == 0 {
 		n = 1000
 	}
+	plan = sample(plan, withFaults(faultBase(3, 3, true), ""), n+n/2, r, "sampled fault:Begin,New|OpenBtree+write+2")
 	pool := allSeqs(nil, []int{cBegin, cNewBtree}, 3, 3, nonWriters, "", 1)
 	pool = allSeqs(pool, []int{cBegin, cOpenBtree}, 3, 3, nonWriters, "", 1)
 	plan = sample(plan, pool, n/2, r, "sampled nonwriter:Begin,New/OpenBtree+3")
@@ -321,11 +427,11 @@ func childExec(args []string) int {
 			seq[j] = c.C
 		}
 		t0 := time.Now()
-		res, pm := runSequenceSpec(ctx, dir, modes[s.Mode], s.Calls)
+		res, fired, p2, pm := runSequenceSpec(ctx, dir, modes[s.Mode], s.Calls, s.Fault)
 		if dt := time.Since(t0); dt > 20*time.Millisecond && os.Getenv("VERIF_C14_SLOW") != "" {
 			fmt.Fprintln(os.Stderr, "slow", dt, s.String())
 		}
-		out[i] = execOut{Res: res, Panic: pm}
+		out[i] = execOut{Res: res, Panic: pm, Fired: fired, Phase: p2}
 	}
 	js, _ := json.Marshal(out)
 	if err := os.WriteFile(args[4], js, 0o644); err != nil {
@@ -410,14 +516,31 @@ func spawnAll(kind, planFile, base, outPrefix string, n int) error {
 
 // ---------------------------------------------------------------- Coq printing
 
-func coqCall(c callSpec) string {
+// coqCall prints call i; fired/p2 describe the armed failure if this is the armed call
+func coqCall(c callSpec, armed bool, kind string, fired bool, phase int) string {
+	f := armed && fired && phase < 2
+	p2 := phase == 1
+	b := func(x bool) string {
+		if x {
+			return "true"
+		}
+		return "false"
+	}
 	switch c.C {
 	case cCommit:
-		return "CCommit false false"
+		return fmt.Sprintf("CCommit %s %s", b(f && !p2), b(f && p2))
+	case cRollback:
+		switch {
+		case f && kind == "sr":
+			return "(CRollback RbStore)"
+		case f:
+			return "(CRollback RbOther)"
+		}
+		return "(CRollback RbNone)"
 	case cP1:
-		return "CP1 false"
+		return "CP1 " + b(f)
 	case cP2:
-		return "CP2 false"
+		return "CP2 " + b(f)
 	case cAdd:
 		return fmt.Sprintf("CAdd %d %d false", c.K, c.V)
 	case cUpdate:
@@ -428,6 +551,13 @@ func coqCall(c callSpec) string {
 		return fmt.Sprintf("CRemove %d false", c.K)
 	}
 	return coqCallNames[c.C]
+}
+
+func faultKind(s seqSpec) string {
+	if s.Fault == nil {
+		return ""
+	}
+	return s.Fault.Kind
 }
 
 func coqDisk(d diskState) string {
@@ -452,11 +582,33 @@ func initDisk(init int) diskState {
 
 // checkProperty evaluates C14 directly on what the implementation did.
 func checkProperty(res *hx.Result, s seqSpec, out execOut, d diskState) {
+	armed := -1
+	if s.Fault != nil {
+		armed = cRollback
+		if s.Fault.At < len(s.Calls) {
+			armed = s.Calls[s.Fault.At].C
+		}
+	}
+	// The injected failure hit the undo inside Rollback itself: the caller is told ("rollback
+	// failed") and the stored data may stay partially undone (count not put back, created store not
+	// removed). That is not held against the lifecycle; the model predicts the exact leftover and
+	// every call after it is still checked.
+	undoFailed := armed == cRollback && out.Fired
 	if out.Panic != "" {
-		res.Fail("panic", s.String()+": "+out.Panic, s)
+		opened := false
+		for i, c := range s.Calls {
+			if (c.C == cNewBtree || c.C == cOpenBtree) && i < len(out.Res) && out.Res[i] == rOk {
+				opened = true
+			}
+		}
+		if !opened && out.Fired && s.Fault.Kind == "tlog" && (armed == cCommit || armed == cP2) && strings.Contains(out.Panic, "index out of range [0] with length 0") {
+			res.Fail("commit-without-store-panics-on-log-failure", s.String()+": "+out.Panic, s)
+		} else {
+			res.Fail("panic", s.String()+": "+out.Panic, s)
+		}
 		return
 	}
-	if d.Err != "" {
+	if d.Err != "" && !undoFailed {
 		res.Fail("stored-data-unreadable", s.String()+": stored data cannot be read back afterwards: "+d.Err, s)
 	}
 	begun, ended, committed := false, false, false
@@ -493,15 +645,21 @@ func checkProperty(res *hx.Result, s seqSpec, out execOut, d diskState) {
 					res.Fail("commit-after-rollback", fmt.Sprintf("%s: call %d %s succeeded on a rolled back transaction", s, i, callNames[c.C]), s)
 				}
 				ended, committed = true, true
+			} else if r == rErr && c.C == cCommit && begun {
+				// Commit ends a begun transaction also when it fails (phase 1 or 2 failed: rolled back)
+				ended = true
+			}
+		case cP1:
+			if r == rErr && begun {
+				ended = true // a failing Phase1Commit has rolled the transaction back
 			}
 		case cRollback:
-			if r == rOk {
-				if committed {
-					res.Fail("rollback-after-commit", fmt.Sprintf("%s: call %d Rollback succeeded on a committed transaction", s, i), s)
-				}
-				if begun {
-					ended = true
-				}
+			if r == rOk && committed {
+				res.Fail("rollback-after-commit", fmt.Sprintf("%s: call %d Rollback succeeded on a committed transaction", s, i), s)
+			}
+			if begun && (r == rOk || r == rErr) {
+				// Rollback ends a begun transaction whatever it returns (also when the undo failed)
+				ended = true
 			}
 		case cNewBtree:
 			if r == rOk && s.Init == 0 {
@@ -510,7 +668,7 @@ func checkProperty(res *hx.Result, s seqSpec, out execOut, d diskState) {
 		}
 	}
 	d0 := initDisk(s.Init)
-	if d.Err != "" {
+	if d.Err != "" || undoFailed {
 		return
 	}
 	// known defect class: a writer whose Phase1Commit succeeded goes on working (store operation,
@@ -689,6 +847,13 @@ func runC14(cfg *hx.RunCfg) (*hx.Result, error) {
 		res.Count("mode." + modeNames[s.Mode])
 		res.Count("len." + strconv.Itoa(len(s.Calls)))
 		res.Count("set." + s.Tag)
+		if s.Fault != nil {
+			k := cRollback
+			if s.Fault.At < len(s.Calls) {
+				k = s.Calls[s.Fault.At].C
+			}
+			res.Count(fmt.Sprintf("fault.%s.%s.%s", callNames[k], s.Fault.Kind, map[bool]string{true: "injected", false: "no-such-write"}[eo.Fired]+map[bool]string{true: ".after-commit-point", false: ""}[eo.Fired && eo.Phase == 2]))
+		}
 		for j, c := range s.Calls {
 			if j < len(eo.Res) && eo.Res[j] < len(resNames) {
 				res.Count("call." + callNames[c.C] + "." + resNames[eo.Res[j]])
@@ -697,8 +862,8 @@ func runC14(cfg *hx.RunCfg) (*hx.Result, error) {
 		res.Count("final." + map[bool]string{true: "store-present", false: "store-absent"}[d.Exists])
 		checkProperty(res, s, eo, d)
 		var cs, rs []string
-		for _, c := range s.Calls {
-			cs = append(cs, coqCall(c))
+		for j, c := range s.Calls {
+			cs = append(cs, coqCall(c, s.Fault != nil && s.Fault.At == j, faultKind(s), eo.Fired, eo.Phase))
 		}
 		for _, r := range eo.Res {
 			if r < len(coqResNames) {
@@ -708,7 +873,7 @@ func runC14(cfg *hx.RunCfg) (*hx.Result, error) {
 		if eo.Panic == "" && d.Err == "" {
 			term := fmt.Sprintf("SeqCase %s %s %s %s %s", coqModeNames[s.Mode], coqDisk(initDisk(s.Init)), hx.CoqList(cs), hx.CoqList(rs), coqDisk(d))
 			nSeqCases++
-			if batchSize > 1 && s.Tag != "corpus" && s.Tag != "random" {
+			if batchSize > 1 && s.Tag != "corpus" && s.Tag != "random" && s.Tag != "random+fault" {
 				batchTerms = append(batchTerms, term)
 				batchSeqs = append(batchSeqs, s)
 				if len(batchTerms) == batchSize {
